@@ -1,4 +1,7 @@
-"""Property table: which contract modules serve which property, claimed level, stand-ins."""
+"""Property table: which contract modules serve which property, claimed level, stand-ins.
+
+The contract modules register their contracts with the properties they serve (`props=[...]`); this
+file only carries the per-property metadata used for MANIFEST.json and the evidence files."""
 from pv import decl
 
 PROPS = {}
@@ -6,15 +9,154 @@ PROPS = {}
 # ---- contract modules (import order matters: callee contracts first)
 decl.default_props(["C04"])
 from . import c04_util  # noqa: E402,F401
+decl.default_props(["C12"])
+from . import c12_context  # noqa: E402,F401
 decl.default_props(["C01"])
 from . import c01_registry  # noqa: E402,F401
+decl.default_props([])
+for _m in ("c05_quantity", "c06_converters", "c14_groups", "c17_helpers", "c18_errors", "c08_names", "c15_qto",
+           "c10_defs", "c07_eval", "c09_format", "c16_numpy", "c19_measurement", "c20_standards", "c13_caches"):
+    try:
+        __import__(f"contracts.{_m}")
+    except ModuleNotFoundError as e:
+        if f"contracts.{_m}" not in str(e):
+            raise
 
-PROPS["C01"] = dict(level="proof", explanation="", standins=[], assumptions=[])
-PROPS["C02"] = dict(level="proof", explanation="", standins=[], assumptions=[])
+A1 = "A1: float and Decimal arithmetic is treated as mathematical (real) arithmetic; ulp-level clauses are decided only by bounded numeric checks"
+A3 = "A3: Python's numeric tower keeps == and hash consistent across int/float/Fraction/Decimal"
+CLOSED = "closed world: only the classes declared in /verif/contracts are instances of the modelled types"
+MIXED = ("mixed: the functions listed under functions_under_contract are verified deductively for all inputs; the clauses "
+         "named below are decided only by bounded stand-ins (bounded, never counted as proved)")
 
-PROPS["C04"] = dict(
-    level="proof",
-    explanation="",
-    standins=[],
-    assumptions=[],
-)
+
+def P(pid, level, text, note, explanation, standins=(), assumptions=(), trusted_base=()):
+    PROPS[pid] = dict(level=level, text=text, note=note, explanation=explanation,
+                      standins=[(m, {}) for m in standins], assumptions=list(assumptions) + [A1, A3, CLOSED],
+                      trusted_base=list(trusted_base))
+
+
+P("C01", "other",
+  "Deductive: the dimensional expansion (_get_dimensionality_recurse: inductive step over the definition table via a "
+  "Lean-proved finite-sum theory) and _get_dimensionality with its cache-coherence invariant are proved for every "
+  "well-formed registry. Bounded: the conversion gate, predicates, decorator and compatible-unit listings are compared with an "
+  "independent Dim on all 164k ordered unit pairs of the default registry and on generated registries.",
+  "Assumed contract: get_name (decided under C08). RegWF is evaluated concretely on the default registry by the stand-ins' "
+  "independent reference, not proved of the definition parser.",
+  MIXED + ": proved = dimensional expansion and its memo; bounded = `to` succeeds iff Dim equal, agreement of "
+  "is_compatible_with / check / @check / get_compatible_units (exhaustive over the default registry's unit pairs).",
+  standins=["standins.c01_compat"])
+P("C02", "other",
+  "Deductive: _get_root_units_recurse (factor = product of scale**exponent along the reference chain; root-unit exponents) is "
+  "proved against a Lean-checked finite-product theory. Bounded: exactness, numeric-type preservation, identity / inverse / "
+  "path independence over all ~8000 same-dimension pairs of the default registry in Fraction, Decimal and float registries.",
+  "Assumed: get_name; positivity of scales (one negative scale in the default registry, electron_g_factor, is outside the proof).",
+  MIXED + ": proved = scale accumulation and root-unit exponents for all registries satisfying RegFac; bounded = exact ratios, "
+  "type preservation, ulp bound (float), path independence on the default registry.",
+  standins=["standins.c02_factors"])
+P("C03", "other",
+  "Bounded: covariance of every arithmetic operator under re-expression of the operands in other units, exact in a Fraction "
+  "registry, over an exhaustive operand catalogue x 27 operator forms; dimension errors; bare-number rule; in-place forms.",
+  "Quantity arithmetic is not yet under contract; rests on the bounded stand-in only.",
+  "bounded stand-in only for now (no deductive obligations yet): operand catalogue x operator forms, exhaustive.",
+  standins=["standins.c03_arith"])
+P("C04", "proof",
+  "Every UnitsContainer operation on the C04 chain is verified against a full-view contract (exponent arithmetic for all keys, "
+  "no zero entry, hash reset/coherence, fresh result, operands unmodified) by a VC generator over the real AST of pint/util.py; "
+  "the group laws (commutativity, associativity, u/u, u**0, (u**a)**b, eq iff same exponents, eq => hash equal, eq is an "
+  "equivalence) are lemmas over those contracts, all discharged by z3/cvc5 for all containers and exponents.",
+  "pi_theorem / column_echelon_form are bounded only (exhaustive small matrices). UnitsContainer.__init__ is not yet under contract.",
+  "proof obligations cover UnitsContainer.{__copy__,copy,add,__mul__,__truediv__,__pow__,__rtruediv__,__eq__,__hash__,rename,"
+  "__getstate__,__setstate__,_normalize_nonfloat_value} and six lemma groups; Buckingham-pi is decided by a bounded stand-in.",
+  standins=["standins.c04_pi"])
+P("C05", "other",
+  "Bounded: == / hash / ordering against an exact Fraction oracle over a catalogue of quantities (all ordered pairs, all triples "
+  "for transitivity), all same-dimension canonical unit pairs for hash agreement, bare-number comparisons.",
+  "Quantity.__eq__/compare/__hash__ are not yet under contract.",
+  "bounded stand-in only for now.", standins=["standins.c05_compare"])
+P("C06", "other",
+  "Bounded: affine/log conversion maps exact in a Fraction registry, inverse pairs, delta units by scale only, the documented "
+  "offset calculus table in both registry modes with both operand orders and in-place forms, default_as_delta parsing.",
+  "Converters and the offset calculus branches are not yet under contract.",
+  "bounded stand-in only for now.", standins=["standins.c06_offset"])
+P("C07", "other",
+  "Bounded: every token sequence up to length 5 (plus all well-formed ones up to 7) over 14 tokens is evaluated by the real "
+  "tree builder and compared with an independent recursive-descent reference and Python's ast; literal typing; word forms; "
+  "audit-hook run over hostile strings.",
+  "The parser (_build_eval_tree) is not yet under contract.",
+  "bounded stand-in only for now.", standins=["standins.c07_eval"])
+P("C08", "other",
+  "Bounded: the full cross product prefix x unit spelling x plural of the default registry against an independent decomposition, "
+  "history independence, case-insensitive lookup, delta reading, membership.",
+  "Name resolution functions are not yet under contract.",
+  "bounded stand-in only for now.", standins=["standins.c08_names"])
+P("C09", "other",
+  "Bounded: every canonical unit x 13 specs x 3 numeric registries, compound units up to 3 factors with exponents -3..3, "
+  "round trips of plain formats, structural check of LaTeX/HTML/siunitx, magnitude specs, objects unchanged.",
+  "Formatter helpers are not yet under contract.",
+  "bounded stand-in only for now.", standins=["standins.c09_format"])
+P("C10", "other",
+  "Bounded: an independent reader of the definition-file grammar is compared with the registry built from the bundled files "
+  "(exhaustive); generated definition sets under all line permutations and six loading paths; a catalogue of ill-formed inputs.",
+  "Definition adders / solve_dependencies are not yet under contract.",
+  "bounded stand-in only for now.", standins=["standins.c10_defs"])
+P("C11", "other",
+  "Deductive: ContextChain.insert_contexts / remove_contexts (most recently enabled context first, in both the context list and "
+  "the rule maps). Bounded: shortest-path minimality on all digraphs of <= 4 (quick) / 5 (thorough) nodes, bundled context rules "
+  "against hand-written formulas, generated context stacks (precedence, parameter inheritance, redefinitions).",
+  "ChainMap lookup order is an assumed contract of collections.ChainMap; Relation.transformation evaluates rule text with parse_expression (C07).",
+  MIXED + ": proved = ordering of the active chain; bounded = shortest chain, rule application, parameter precedence, redefinitions.",
+  standins=["standins.c11_contexts"])
+P("C12", "other",
+  "Deductive: the active stack after insert; remove is the original stack (lemma over the real ContextChain methods); "
+  "context() restores the stack on normal AND exceptional exit of the with-body (try/finally of the real generator); "
+  "disable_contexts pops exactly n. Bounded: all operation sequences of length <= 4/5 over 16 operations against a reference "
+  "stack model, including failing activations and shared Context objects.",
+  "enable_contexts and _switch_context_cache_and_units carry assumed contracts (their bodies are outside the verified subset); "
+  "atomicity of a failed activation and absence of residue are decided by the bounded stand-in.",
+  MIXED + ": proved = stack discipline of insert/remove/context()/disable_contexts; bounded = failed activation changes nothing, "
+  "no residue in answers, shared contexts unmodified.",
+  standins=["standins.c12_context_stack"])
+P("C13", "other",
+  "Deductive: the dimensionality memo is coherent (every cached entry equals the spec value, established and preserved by "
+  "_get_dimensionality) and the recursions' results do not depend on memo contents. Bounded: query/state-change sequences "
+  "compared with a fresh registry in the same declarative state.",
+  "Other memos (root units, conversion factors, parse cache, base-unit cache) are covered by the stand-in only so far.",
+  MIXED + ": proved = dimensionality memo coherence; bounded = history independence over sequences of <= 2 (quick) / 4 (thorough) operations.",
+  standins=["standins.c13_history"])
+P("C14", "other",
+  "Bounded: base units for every multiplicative unit x 7 systems against an independent reading of the @system blocks and exact "
+  "factors; group closure over all `using` DAGs on <= 4 groups with edit sequences; rule inversion catalogue; restricted "
+  "compatible units; system attribute access.",
+  "Group/System objects are not yet under contract.",
+  "bounded stand-in only for now.", standins=["standins.c14_systems"])
+P("C15", "other",
+  "Bounded: to_root/base/reduced/compact/preferred and ito_ twins on all containers of <= 4 units from 3 dimension classes with "
+  "exponents -3..3, exact in a Fraction registry; compact window; special magnitudes.",
+  "qto helpers are not yet under contract.",
+  "bounded stand-in only for now.", standins=["standins.c15_rewrite"])
+P("C16", "other",
+  "Bounded: for every function pint handles, results are compared with NumPy applied to root-unit magnitudes with the unit "
+  "implied by an independently written homogeneity table; re-expression invariance; incompatible inputs; offset units; in-place.",
+  "NumPy itself is an assumed dependency; pint's numpy_func bookkeeping is not yet under contract.",
+  "bounded stand-in only for now.", standins=["standins.c16_numpy"])
+P("C17", "other",
+  "Bounded: generated signatures (1-4 parameters, positional/keyword/default) x unit-spec kinds for wraps and check, exact in a "
+  "Fraction registry, arguments recorded inside the wrapped function.",
+  "registry_helpers is not yet under contract.",
+  "bounded stand-in only for now.", standins=["standins.c17_wraps"])
+P("C18", "other",
+  "Bounded: pickle protocols 0-5 x magnitude types x random units, copy/deepcopy/tuple forms, every exception class, "
+  "cross-registry operators, deep-copied registries, lazy registry in a fresh interpreter.",
+  "pickle / copy machinery is an assumed dependency.",
+  "bounded stand-in only for now.", standins=["standins.c18_serialize"])
+P("C19", "other",
+  "Bounded: constructor forms, conversion of nominal value and standard deviation against exact factors, first-order propagation "
+  "against own derivatives, all notation strings of a small grammar against a reference reader, measurement formats.",
+  "uncertainties is an assumed dependency.",
+  "bounded stand-in only for now.", standins=["standins.c19_measurement"])
+P("C20", "other",
+  "Exhaustive over an independently curated table of 342 standard values (SI prefixes and derived units, defining constants, "
+  "yard/pound families, temperature scales, time, CGS, information, CODATA 2022): exact equality in a Fraction registry.",
+  "The table (tables/standards.json) was written from memory of the standards (no network) and is part of the trusted base.",
+  "closed comparison of the registry built by the real parser against an independent table (exhaustive over the table); rests "
+  "on C02 for the meaning of to_root_units.", standins=["standins.c20_standards"])
